@@ -18,6 +18,7 @@ case "$PROP" in
   C21) ENGINE=sim_extdata; SET=plain; export RTEN_NUM_THREADS=2 ;;
   C02|C24|C25) ENGINE=sim_exec; SET=a; export RTEN_NUM_THREADS=1 ;;
   C23) ENGINE=sim_pool; SET=c ;;
+  C22) ENGINE=sim_session; SET=b; export RAYON_NUM_THREADS=2 ;;
   *) echo "HARNESS-ERROR: no engine for property $PROP" >&2; exit 2 ;;
 esac
 TDIR="$ROOT/target/$SET"
@@ -28,8 +29,15 @@ build() { # profile
   case "$SET" in
     a) flags="--cfg rten_verif" ;;
     c) flags="--cfg rten_verif=\"shuttle_pool\"" ;;
+    b) flags="--cfg rten_verif --cfg rten_verif=\"shuttle_plan\"" ;;
   esac
-  if ! ( cd "$ROOT/sim" && RUSTFLAGS="$flags" CARGO_TARGET_DIR="$TDIR" cargo build --offline --profile "$profile" -p "$ENGINE" >"$log" 2>&1 ); then
+  local ws="$ROOT/sim"
+  if [ "$SET" = b ]; then
+    # shadow workspace: rten built from /repo/src with the Shuttle dependency added (manifest generated from /repo's)
+    ws="$ROOT/sim/shadow"
+    if ! ( cd "$ws" && python3 gen_shadow.py >"$log" 2>&1 ); then echo "HARNESS-ERROR: could not generate the shadow manifest; see $log" >&2; exit 2; fi
+  fi
+  if ! ( cd "$ws" && RUSTFLAGS="$flags" CARGO_TARGET_DIR="$TDIR" cargo build --offline --profile "$profile" -p "$ENGINE" >"$log" 2>&1 ); then
     echo "HARNESS-ERROR: build of $ENGINE ($profile) failed; see $log" >&2
     tail -n 30 "$log" >&2
     exit 2
